@@ -74,11 +74,11 @@ def handle (req : LJson) : Except String LJson := do
   let model := model15 st subset ((← getStr case "level") == "class")
   let impl ← req.getObjVal? "impl"
   let implInvalid := (getOpt impl "invalid").bind (fun b => b.getBool?.toOption) == some true
-  let app := applicable15 st && !implInvalid && !model.invalid
+  let app := applicable15 st && !implInvalid
   let sImpl ← if implInvalid then pure none else do
     let o ← parseObs15 impl
     pure (if app then spec15 subset o else none)
-  let sModel := if app then spec15 subset model else none
+  let sModel := if app && !model.invalid then spec15 subset model else none
   return Lean.Json.mkObj [
     ("model", jObs15 model),
     ("applicable", Lean.Json.bool app),
